@@ -83,14 +83,35 @@ Qed.
 
 (* ---------- first frame ---------- *)
 Lemma ff_step s n pl :
-  0 <= n <= 4095 ->
+  0 < n <= 4095 ->
   exists c, slot_step s ((16 + n / 256) :: (n mod 256) :: pl) = (mkSlot n (Some pl) 0, [], c).
 Proof.
   intros H. unfold slot_step.
   replace ((16 + n / 256) / 16) with 1 by lia.
   replace ((16 + n / 256) mod 16) with (n / 256) by lia.
   unfold isotp_frame_type_single, isotp_frame_type_first. simpl (1 =? 0). simpl (1 =? 1).
-  replace (n / 256 * 256 + n mod 256) with n by lia. eexists. reflexivity.
+  replace (n / 256 * 256 + n mod 256) with n by lia.
+  replace (n =? 0) with false by lia. cbn [andb]. eexists. reflexivity.
+Qed.
+
+(* the escape of ISO 15765-2:2016: a first frame announcing its length as 32 bit number *)
+Lemma be_len_be4 n : 0 <= n < 4294967296 -> be_len (be4 n) = n.
+Proof. intros H. unfold be_len, be4. cbn [fold_left]. lia. Qed.
+
+Lemma ff_esc_step s n pl :
+  0 <= n < 4294967296 ->
+  exists c, slot_step s (16 :: 0 :: be4 n ++ pl) = (mkSlot n (Some pl) 0, [], c).
+Proof.
+  intros H. unfold slot_step.
+  change (16 / 16) with 1. change (16 mod 16) with 0.
+  unfold isotp_frame_type_single, isotp_frame_type_first. simpl (1 =? 0). simpl (1 =? 1).
+  change (0 * 256 + 0 =? 0) with true.
+  replace (6 <=? blen (16 :: 0 :: be4 n ++ pl)) with true.
+  2:{ unfold be4. cbn [app]. rewrite !blen_cons. pose proof (blen_nonneg pl). lia. }
+  cbn [andb].
+  assert (T : take 4 (be4 n ++ pl) = be4 n) by reflexivity.
+  assert (D : drop 4 (be4 n ++ pl) = pl) by reflexivity.
+  rewrite T, D, be_len_be4 by exact H. eexists. reflexivity.
 Qed.
 
 (* ---------- consecutive frames ---------- *)
@@ -156,7 +177,7 @@ Qed.
 
 (* ---------- one whole transfer, from ANY slot state ---------- *)
 Lemma seg_run s fsz t pad :
-  8 <= fsz -> 1 <= blen t <= 4095 ->
+  8 <= fsz -> 1 <= blen t < 4294967296 ->
   exists s', slot_run s (segment fsz t pad) = (s', [t]).
 Proof.
   intros Hf Ht. unfold segment.
@@ -174,24 +195,38 @@ Proof.
         2:{ rewrite !blen_cons, blen_app. pose proof (blen_nonneg pad). lia. }
         simpl andb. simpl nth. unfold drop. simpl skipn. rewrite take_app_exact.
         eexists. reflexivity.
-    + apply Z.leb_gt in E2. rewrite slot_run_cons.
-      destruct (ff_step s (blen t) (take (fsz - 2) t)) as [c ->]; [lia|].
-      assert (Hd : blen (drop (fsz - 2) t) = blen t - (fsz - 2)) by (apply blen_drop; lia).
-      assert (A1 : (List.length (drop (fsz - 2) t) <= List.length t)%nat)
-        by (unfold drop; rewrite skipn_length; lia).
-      assert (A2 : 1 <= blen (drop (fsz - 2) t)) by lia.
-      assert (A3 : blen t = blen (take (fsz - 2) t) + blen (drop (fsz - 2) t))
-        by (rewrite blen_take by lia; lia).
-      assert (A4 : (0 + 1) mod 16 = 1 mod 16) by reflexivity.
-      destruct (cfs_run (List.length t) fsz 1 (drop (fsz - 2) t) pad (take (fsz - 2) t) (blen t) 0
-                        Hf A1 A2 A3 A4) as (s' & R & _).
-      rewrite R, take_drop. eexists. reflexivity.
+    + apply Z.leb_gt in E2. destruct (blen t <=? 4095) eqn:E3.
+      * apply Z.leb_le in E3. rewrite slot_run_cons.
+        destruct (ff_step s (blen t) (take (fsz - 2) t)) as [c ->]; [lia|].
+        assert (Hd : blen (drop (fsz - 2) t) = blen t - (fsz - 2)) by (apply blen_drop; lia).
+        assert (A1 : (List.length (drop (fsz - 2) t) <= List.length t)%nat)
+          by (unfold drop; rewrite skipn_length; lia).
+        assert (A2 : 1 <= blen (drop (fsz - 2) t)) by lia.
+        assert (A3 : blen t = blen (take (fsz - 2) t) + blen (drop (fsz - 2) t))
+          by (rewrite blen_take by lia; lia).
+        assert (A4 : (0 + 1) mod 16 = 1 mod 16) by reflexivity.
+        destruct (cfs_run (List.length t) fsz 1 (drop (fsz - 2) t) pad (take (fsz - 2) t) (blen t) 0
+                          Hf A1 A2 A3 A4) as (s' & R & _).
+        rewrite R, take_drop. eexists. reflexivity.
+      * (* more than 4095 bytes: the first frame carries the length as 32 bit number and fsz - 6 bytes *)
+        apply Z.leb_gt in E3. rewrite slot_run_cons.
+        destruct (ff_esc_step s (blen t) (take (fsz - 6) t)) as [c ->]; [lia|].
+        assert (Hd : blen (drop (fsz - 6) t) = blen t - (fsz - 6)) by (apply blen_drop; lia).
+        assert (A1 : (List.length (drop (fsz - 6) t) <= List.length t)%nat)
+          by (unfold drop; rewrite skipn_length; lia).
+        assert (A2 : 1 <= blen (drop (fsz - 6) t)) by lia.
+        assert (A3 : blen t = blen (take (fsz - 6) t) + blen (drop (fsz - 6) t))
+          by (rewrite blen_take by lia; lia).
+        assert (A4 : (0 + 1) mod 16 = 1 mod 16) by reflexivity.
+        destruct (cfs_run (List.length t) fsz 1 (drop (fsz - 6) t) pad (take (fsz - 6) t) (blen t) 0
+                          Hf A1 A2 A3 A4) as (s' & R & _).
+        rewrite R, take_drop. eexists. reflexivity.
 Qed.
 
 (* a sequence of transfers: exactly the telegrams, in order, each once *)
 Definition transfer := (Z * bytes * bytes)%type.   (* frame size, telegram, padding *)
 Definition tr_ok (x : transfer) : Prop :=
-  let '(fsz, t, _) := x in 8 <= fsz /\ 1 <= blen t <= 4095.
+  let '(fsz, t, _) := x in 8 <= fsz /\ 1 <= blen t < 4294967296.
 Definition tr_frames (x : transfer) : list bytes := let '(fsz, t, pad) := x in segment fsz t pad.
 Definition tr_tele (x : transfer) : bytes := let '(_, t, _) := x in t.
 
@@ -487,8 +522,12 @@ Proof.
     now apply IH.
 Qed.
 
-Definition ff_len (d : bytes) : Z := (nth 0 d 0 mod 16) * 256 + nth 1 d 0.
-Definition ff_pl (d : bytes) : bytes := skipn 2 d.
+(* the announced length and the payload of a first frame: the 12 bit length, or -- when that is zero and the frame has at
+   least six bytes (ISO 15765-2:2016) -- the 32 bit number which follows it *)
+Definition ff_esc (d : bytes) : bool := ((nth 0 d 0 mod 16) * 256 + nth 1 d 0 =? 0) && (6 <=? blen d).
+Definition ff_len (d : bytes) : Z :=
+  if ff_esc d then be_len (take 4 (skipn 2 d)) else (nth 0 d 0 mod 16) * 256 + nth 1 d 0.
+Definition ff_pl (d : bytes) : bytes := if ff_esc d then drop 4 (skipn 2 d) else skipn 2 d.
 Definition cf_pl (d : bytes) : bytes := skipn 1 d.
 Definition sf_pl (d : bytes) : bytes :=
   let lo := nth 0 d 0 mod 16 in
@@ -539,11 +578,13 @@ Proof.
   - destruct (b0 / 16 =? 1) eqn:E1.
     + (* first frame *)
       destruct rest as [|b1 pl]; [split; [assumption | intros t []]|].
-      split; [| intros t []].
-      unfold slot_inv. cbn [data spec_len last_idx].
-      exists (b0 :: b1 :: pl), []. split; [apply subseq_last|].
-      split; [exact E1|]. split; [exact I|]. split; [simpl; now rewrite app_nil_r|].
-      split; reflexivity.
+      destruct ((b0 mod 16 * 256 + b1 =? 0) && (6 <=? blen (b0 :: b1 :: pl))) eqn:Esc;
+        (split; [| intros t []]);
+        unfold slot_inv; cbn [data spec_len last_idx];
+        exists (b0 :: b1 :: pl), []; (split; [apply subseq_last|]);
+        (split; [exact E1|]); (split; [exact I|]);
+        unfold ff_pl, ff_len, ff_esc; cbn [nth]; rewrite Esc; cbn [skipn concat map];
+        (split; [now rewrite app_nil_r|]); split; reflexivity.
     + destruct (b0 / 16 =? 2) eqn:E2.
       * (* consecutive frame *)
         destruct (data s) as [td|] eqn:D; [|split; [assumption | intros t []]].
@@ -593,7 +634,8 @@ Lemma ff_callbacks s d : is_ff d = true ->
 Proof.
   destruct d as [|b0 [|b1 pl]]; try discriminate. unfold is_ff. intros H.
   apply Z.eqb_eq in H. unfold slot_step. rewrite H.
-  unfold isotp_frame_type_single, isotp_frame_type_first. simpl. eexists. reflexivity.
+  unfold isotp_frame_type_single, isotp_frame_type_first. simpl (1 =? 0). simpl (1 =? 1). cbn match.
+  destruct ((b0 mod 16 * 256 + b1 =? 0) && (6 <=? blen (b0 :: b1 :: pl))); eexists; reflexivity.
 Qed.
 
 Lemma active_ff tx psize pval m as_ rx d r i :
